@@ -398,11 +398,15 @@ pub struct Presentation {
     /// false = like JSON (any non-null value is `Some`), true = like RON (`ExpectedOption`)
     #[serde(default)]
     pub strict_option: bool,
+    /// NOT a presentation the check judges (DESIGN §4.4): a bincode-style peer that hands a struct out as a
+    /// sequence of exactly `fields.len()` elements. Used only for the "observed, not judged" note in the evidence.
+    #[serde(default)]
+    pub limit_to_declared_fields: bool,
 }
 
 impl Presentation {
     pub fn plain() -> Self {
-        Presentation { struct_as: StructAs::Map, key_form: KeyForm::BorrowedStr, alpha_pos: 255, order: 0, size_hint: true, alpha_present: true, unknown_key_at: None, strict_option: false }
+        Presentation { struct_as: StructAs::Map, key_form: KeyForm::BorrowedStr, alpha_pos: 255, order: 0, size_hint: true, alpha_present: true, unknown_key_at: None, strict_option: false, limit_to_declared_fields: false }
     }
 }
 
@@ -628,6 +632,13 @@ impl<'de, 'p> Deserializer<'de> for Replay<'de, 'p> {
     }
     fn deserialize_struct<V: Visitor<'de>>(self, _name: &'static str, fields: &'static [&'static str], visitor: V) -> Result<V::Value, SimError> {
         self.peer.call()?;
+        if self.top && self.pres.limit_to_declared_fields {
+            // observation only: no trailing-element check, the peer simply stops after `fields.len()` elements
+            let mut items = self.items()?;
+            items.truncate(fields.len());
+            let consumed = Cell::new(0usize);
+            return visitor.visit_seq(SeqReplay { items, pos: &consumed, parent: &self, hint: true });
+        }
         match (self.tok, self.pres.struct_as, self.top) {
             (Tok::Struct { .. }, StructAs::Map, _) | (Tok::Struct { .. }, _, false) => self.present_map(fields, visitor),
             _ => self.present_seq(visitor),
